@@ -2199,6 +2199,7 @@ package exec
 //@   hint call.exec.Function#1 !fargErr($SIG$, $FCTX$)
 //@   hint call.exec.Function#1 fn == fnLookup(context.ContextSettings, qnOf(btext(ntchild($B$, 0), expr.lex), $NSD$))
 //@   hint call.exec.Function#1 absv(context.result) == old(absv(context.result)) && context.contextPosition == old(context.contextPosition)
+//@   hintafter call.exec.Function#1 sem($B$, $FCTX$) == fnres(fn, old(absv(context.result)), old(context.contextPosition), old(context.contextSize), semArgs($SIG$, $FCTX$))
 //@   ensures $HPOSTE$                                                         @error-iff-specified
 //@   ensures $HPOSTV$                                                         @value-is-Sem
 //@   loop 0
